@@ -128,7 +128,7 @@ def ref_op(opstr):
 def ob_compare(lo, lv, lw):
     """version_compare with a symbolic spelling of the operator part"""
     def h():
-        o = sym_str(lo, 'op', alphabet='<>=! 1'); v = sym_str(lv, 'v', 32, 126); w = sym_str(lw, 'w', alphabet='0123456789ab. ')
+        o = sym_str(lo, 'op', alphabet='<>=! 1'); v = sym_str(lv, 'v', 32, 126); w = sym_str(lw, 'w', alphabet='0123456789ab. ,')
         got = U.version_compare(v, o + w)
         # reference: longest operator among the documented ones at the start, rest stripped
         s = o + w
@@ -144,6 +144,9 @@ def ob_compare(lo, lv, lw):
         ok, nf, f = U.version_compare_many(v, [s])
         check(eq(ok, exp), 'version_compare_many agrees')
         check(len(nf) + len(f) == 1, 'partition')
+        ok1, nf1, f1 = U.version_compare_many(v, s)          # a bare string is ONE condition (what 'x'.version_compare(s) passes), whatever characters it holds
+        check(eq(ok1, exp), 'version_compare_many(v, str) is version_compare(v, str)')
+        check(len(nf1) + len(f1) == 1 and eq((nf1 + f1)[0], s), 'a bare string is one condition')
         cover('op' + op)
     return h
 
@@ -371,7 +374,7 @@ def obligations(tier):
                 if tier == 'thorough' and la + lb + lc > 7: continue
                 out.append(Obligation('axioms[%d,%d,%d]' % (la, lb, lc), ob_trans(la, lb, lc), dict(lens=(la, lb, lc), alphabet='ASCII 32..126'), labels=('done',)))
     for lo in (0, 1, 2) if tier == 'quick' else (0, 1, 2, 3):
-        out.append(Obligation('compare[%d]' % lo, ob_compare(lo, 2, 2), dict(op_len=lo, op_alphabet='<>=! 1', v_len=2, w_len=2), labels=('op',)))
+        out.append(Obligation('compare[%d]' % lo, ob_compare(lo, 2, 2), dict(op_len=lo, op_alphabet='<>=! 1', v_len=2, w_len=2, w_alphabet='0-9ab. and comma', many='as a list of one and as a bare string'), labels=('op',)))
     out.append(Obligation('range-algebra', ob_range(), dict(endpoints='unbounded ints', shapes='all 4x4 min/max presence, all flags'),
                           labels=('always-true', 'always-false', 'always-none')))
     for n in (1, 2) if tier == 'quick' else (1, 2, 3):
